@@ -108,6 +108,15 @@ RowAdd2(h, src, dst) == Live(h) /\ src < Dm(h) /\ dst < Dm(h) /\ src # dst /\ Pu
 \* full reduction is functional: the unique RREF
 Echelonize(h) == Live(h) /\ Put(h, RREF(Value(h))) /\ UNCHANGED objs
 
+\* relational steps: the new value is any one the property allows (the trace validator takes the recorded outcome
+\* after checking it with the relational predicate; the generator does not track values)
+PleStep(h, isple, Anew, P, Q, r) ==
+  /\ Live(h) /\ (IF ABSTRACT THEN TRUE ELSE PLEOK(Value(h), Anew, P, Q, r, isple)) /\ Put(h, Anew) /\ UNCHANGED objs
+EchelonStep(h, Anew, r) ==          \* without full reduction: any row echelon form of the same row space
+  /\ Live(h) /\ (IF ABSTRACT THEN TRUE ELSE EchelonOK(Value(h), Anew, r, 0)) /\ Put(h, Anew) /\ UNCHANGED objs
+\* observers change nothing
+Observe(a, b) == Live(a) /\ Live(b) /\ UNCHANGED <<objs, mem>>
+
 -----------------------------------------------------------------------------
 \* store laws (checked by MC_Store for every reachable state / step)
 TypeOK ==
